@@ -28,7 +28,7 @@ int write_int24(FILE *out, int value)
 
 int write_wdc(Memory *memory, FILE *out)
 {
-  uint32_t n;
+  uint64_t n;
   int address = -1;
   int length = 0;
   uint8_t buffer[65536];
